@@ -828,7 +828,7 @@ def _kw_defaults(fn: ast.FunctionDef) -> Dict[str, str]:
 # P4 REFUSALS
 
 
-@rule("P4", "REFUSALS: undefined targets, duplicate handlers and oversized line numbers raise the documented errors before emission", ["C06", "C15"], floor=4)
+@rule("P4", "REFUSALS: undefined targets, duplicate handlers and oversized line numbers raise the documented errors before emission", ["C06", "C15", "C11"], floor=4, default_props=["C06", "C15"])
 def p4(ctx: Ctx):
     P = pipeline(ctx)
     py = P.py
@@ -900,6 +900,8 @@ def p4(ctx: Ctx):
                     file=VISITORS_REL,
                     line=n.lineno,
                     witness="" if not extra else "32700 END",
+                    # (a condition on what the label filter left behind makes acceptance depend on the filter option)
+                    props=["C06", "C15", "C11"] if any("is_referenced" in e_ for e_ in extra) else None,
                 )
                 okb = bound == 32699 and rc.startswith("LineNumberTooLargeException")
                 ctx.ob("refuse:line-number-bound", okb, "" if okb else f"line numbers above {bound} raise `{rc}`; documented bound is 32699 with LineNumberTooLargeException", file=VISITORS_REL, line=n.lineno, facts={"bound": bound})
